@@ -236,9 +236,9 @@ def lifecycle_check(prop, tier):
         hists += hr
         run.states += gr2["distinct"]
         run.transitions += gr2["generated"]
-    if prop in ("C02", "C03", "C12", "C17", "C05") and tier == "quick":
-        # longer histories over a minimal alphabet (three installs: A,B,A patterns)
-        h3, g3 = gen_behaviours("MC_LifecycleApi_q3", timeout=3000)
+    if prop in ("C02", "C03", "C12", "C17", "C05"):
+        # longer histories over a smaller alphabet (three installs: A,B,A patterns)
+        h3, g3 = gen_behaviours("MC_LifecycleApi_q3" if tier == "quick" else "MC_LifecycleApi_t3", timeout=3000)
         hists += h3
         run.states += g3["distinct"]
         run.transitions += g3["generated"]
